@@ -35,8 +35,14 @@ def signFix (neg : Bool) : Bytes → Bytes
 def intToScriptBytes (v : Int) : Bytes :=
   if v = 0 then [] else signFix (v < 0) (leDigits v.natAbs v.natAbs)
 
-/-- `BitcoinVM.pop_int`: no length bound; minimal encoding required under MINIMALDATA -/
-def popInt (flags : Nat) (s : State) : M (Int × State) := do
+/-- `BitcoinVM.MAX_INT_SIZE` -/
+def maxIntSize : Nat := MAX_INT_SIZE
+
+/-- `BitcoinVM.pop_int(max_size=None)`: `len(self[-1]) > max_size` raises `UNKNOWN_ERROR` (default bound
+`MAX_INT_SIZE`); minimal encoding required under MINIMALDATA -/
+def popInt (flags : Nat) (s : State) (maxSize : Nat := maxIntSize) : M (Int × State) := do
+  let top ← peek 1 s
+  if top.length > maxSize then .error (scriptErr errno_UNKNOWN_ERROR)
   let (x, s) ← pop s
   let v ← intFromScriptBytes x (hasFlag flags VERIFY_MINIMALDATA)
   pure (v, s)
